@@ -28,8 +28,9 @@ type Ctx struct {
 	NShards  int
 	Verbose  bool        // replay mode
 	Case     interface{} // description of the running case, attached to a panic report
-	OutDir   string      // scratch directory of this run (race logs, strace files)
-	Exe      string      // path of the vcheck binary (for grandchildren)
+	kept     []keptString
+	OutDir   string // scratch directory of this run (race logs, strace files)
+	Exe      string // path of the vcheck binary (for grandchildren)
 }
 
 // Phase is an indexed family of cases; case i of a phase is a pure function
@@ -182,6 +183,32 @@ func SwitchEastAsianWidth(c *Ctx) {
 	c.Rec.SetEnv(EnvEastAsian)
 }
 
+// keptString is a string the library returned earlier in the case, with a private copy of what it read then.
+type keptString struct {
+	s, copy, what string
+}
+
+// Keep remembers a string the library returned; when the case is over (and whatever the case did afterwards
+// through the same wrappers and tables is done) it must still read what it read when it was returned: a Go
+// string is a value, and a Render result the caller holds is not the renderer's scratch space.
+func (c *Ctx) Keep(s, what string) string {
+	if len(c.kept) < 64 {
+		c.kept = append(c.kept, keptString{s, strings.Clone(s), what})
+	}
+	return s
+}
+
+func (c *Ctx) checkKept() {
+	for _, k := range c.kept {
+		c.Rec.Count("returned_strings_read_again_at_the_end_of_the_case", 1)
+		if k.s != k.copy {
+			c.Rec.Violate("returned-string-changed-later", fmt.Sprintf("the string returned by %s read %q when it was returned; after the later operations of the case the very same string value reads %q", k.what, k.copy, k.s), c.Case)
+			break
+		}
+	}
+	c.kept = c.kept[:0]
+}
+
 // RunCase runs one case under the panic guard.
 func RunCase(c *Ctx, pi, i int) {
 	ph := &c.Prop.Phases[pi]
@@ -195,7 +222,9 @@ func RunCase(c *Ctx, pi, i int) {
 			c.Rec.ViolateStack("panic@"+site, fmt.Sprintf("panic escaped the library during phase %q case %d: %v (a panic on an in-domain input is a violation of %s; also C09)", ph.Name, i, x, c.Prop.ID), c.Case, st)
 		}
 	}()
+	c.kept = c.kept[:0]
 	ph.Run(c, i, r)
+	c.checkKept()
 }
 
 // PanicSite extracts the innermost go.pennock.tech/tabular function from a stack dump.
